@@ -98,6 +98,56 @@ def r01_3(ctx, repo):
         ctx.ok(rule, where, construct,
                'one integer index of the union grid per observation time '
                '(repeated times select the same model output)')
+        # a binary search needs a sorted grid
+        for c in ast.walk(fn):
+            if not (isinstance(c, ast.Call) and U(c.func) in (
+                    'np.searchsorted', 'numpy.searchsorted') and c.args):
+                continue
+            grid = c.args[0]
+            is_sorted = None
+            hops = 0
+            cur = grid
+            line = c.lineno
+            while hops < 8:
+                hops += 1
+                if isinstance(cur, ast.Call) and U(cur.func) in (
+                        'sorted', 'np.sort', 'np.unique', 'numpy.sort',
+                        'numpy.unique'):
+                    is_sorted = True
+                    break
+                if isinstance(cur, ast.Call) and cur.args and U(
+                        cur.func) in ('pints.vector', 'np.array',
+                                      'np.asarray', 'list', 'tuple',
+                                      'np.copy'):
+                    cur = cur.args[0]
+                    continue
+                if isinstance(cur, ast.Name):
+                    d = [a for a in ast.walk(fn) if isinstance(a, ast.Assign)
+                         and any(U(t) == cur.id for t in a.targets)
+                         and a.lineno < line]
+                    if not d:
+                        break
+                    d.sort(key=lambda a: a.lineno)
+                    line = d[-1].lineno
+                    cur = d[-1].value
+                    continue
+                is_sorted = False
+                break
+            w2 = repo.loc(c, CLS, fn.name)
+            if is_sorted:
+                ctx.ok(rule, w2, construct,
+                       'the grid that is searched is sorted')
+            elif is_sorted is False:
+                ctx.violation(
+                    rule, w2, construct, 'search in unsorted grid',
+                    '`%s` looks the observation times up by binary search '
+                    'in `%s`, which is built by `%s` and not sorted: for '
+                    'grids that interleave between outputs the positions '
+                    'are wrong (or out of range)' % (
+                        U(c)[:50], U(grid), U(cur)[:50]))
+            else:
+                ctx.error(rule, '%s: order of the searched grid `%s` not '
+                          'derived' % (construct, U(grid)))
         return
     # boolean mask over the union grid: is the grid de-duplicated?
     dedup = any(isinstance(c, ast.Call) and U(c.func) in (
